@@ -42,6 +42,8 @@ def gen(rng, tier):
         # several worker-facility pairs on one task, facilities that come and go while it is worked on
         focus.update(comps=True, facilities=True, contention="low", res_abs=True, fac_abs_dense=True, solo=False, fix=False, nested=False,
                      single_task_comps=True, zero_skill=False)
+        if rng.random() < 0.4:
+            focus["dec_fit"] = True  # component sizes that fill a workplace exactly, up to rounding (0.8 + 0.2, 0.9 + 0.1)
     feasible = rng.random() < 0.35 and not focus.get("fac_abs_dense")
     return C.maybe_from_json(rng, C.maybe_history(rng, C.forward_spec(rng, tier, focus, feasible=feasible), 0.25, reload_prob=0.4))
 
@@ -163,7 +165,8 @@ def check_trace(res, tr):
                     all_ok = bool(hosts)
                     witness = None
                     for wid_ in hosts:
-                        occ = set(U["P"].get(wid_, ())) | set(A["P"].get(wid_, ()))
+                        # (who is there: by the components' own reports, at the start and at the end of the allocation together)
+                        occ = set(c_ for c_ in st.comp_order if U["C"][c_][1] == wid_ or A["C"][c_][1] == wid_)
                         used = sum(st.comps[c_].get("size", 1.0) for c_ in occ if c_ in st.comps)
                         if not (st.wp[wid_].get("cap", 1.0) - used > size - 1e-8 + 1e-9):
                             all_ok = False
